@@ -1,7 +1,8 @@
 (** * C08 - executable model of smooth::diff::dr (numerical differentiation in tangent space)
 
-    Transcription of /repo/include/smooth/detail/diff_impl.hpp (dr_numerical :17-132, dr :149-222,
-    index-subset overload :224-241) and of the helpers of detail/wrt_impl.hpp it uses
+    Transcription of /repo/include/smooth/detail/diff_impl.hpp (dr_numerical :17-136, dr :153-226,
+    index-subset overload :228-245; line numbers of the tree that contains the repairs 59fd5d3 and 41b038a)
+    and of the helpers of detail/wrt_impl.hpp it uses
     (wrt_copy_if_const :98-113, wrt_cast :42-52).  The callable [f], the manifold operations
     [rplus]/[rminus]/[dof] of the argument and result types and the scalar arithmetic are abstract
     (Section variables), so the model covers every argument list (any number and mix of Manifold kinds,
@@ -37,10 +38,15 @@ Record Ops (S X Y : Type) := mkOps {
   dofY : Y -> nat;             (* dof<Result>(fval) *)
   rminus : Y -> Y -> list S;   (* rminus<Result>(a, b) *)
   dflt : X;                    (* value of std::get<i> for an out-of-range i (never reached) *)
-  eps : S; sqrteps : S;        (* :29 sqrt(NumTraits::epsilon()), :73 sqrt(eps) *)
-  (** Repair flags (both [false] = the code as it is in /repo; see notes/C08.md, findings C08-restore-drift and
-      C08-k2-jac-step).  [fix_restore]: arguments are restored from a saved copy instead of by the inverse
-      perturbation.  [fix_k2jac]: the K = 2 routine computes its first-derivative output with the K = 1 step. *)
+  eps : S; sqrteps : S;        (* :29 sqrt(NumTraits::epsilon()), :74 sqrt(eps) *)
+  (** Version flags.  Both [true] = the code as it is in /repo now ([c08_fix_restore], [c08_fix_k2jac] below;
+      the theorems of Props/Properties_C08.v are about that instance, predicate [current_code] in the proofs).
+      [false] = the behaviour before the repair commits, kept only so that the historical [_refuted] lemmas
+      (findings C08-restore-drift, C08-k2-jac-step, both fixed) can still be stated over the same model.
+      [fix_restore] (commit 59fd5d3): arguments are restored from a saved copy [w = w_orig] (:62/:65, :102/:105,
+      :117/:122-123); before, by the inverse perturbation [w = rplus(w, -h e)].
+      [fix_k2jac] (commit 41b038a): the K = 2 routine takes its first-derivative output from the K = 1 routine
+      (:79); before, it formed J from the second-order differences [J.col(I0 + k0) = d1 / eps0]. *)
   fix_restore : bool; fix_k2jac : bool }.
 
 Section DiffModel.
@@ -66,7 +72,7 @@ Section DiffModel.
   Definition unitv (n j : nat) (h : S) : list S :=
     map (fun k => if Nat.eqb k j then h else (szero o)) (seq 0 n).
 
-  (** step selection, :56-61 (with [eps]) and :92-96, :107-111 (with [sqrteps]) *)
+  (** step selection, :56-61 (with [eps]) and :96-100, :110-114 (with [sqrteps]) *)
   Definition step (e : S) (w : X) (j : nat) : S :=
     if (isvec o) w
     then (let ej := (smul o) e ((sabs o) ((coord o) w j)) in if (sis0 o) ej then e else ej)
@@ -78,20 +84,23 @@ Section DiffModel.
   Definition bump (i n j : nat) (h : S) (xs : list X) : list X :=
     upd i ((rplus o) (getx i xs) (unitv n j h)) xs.
 
-  (** undo the perturbation: current code [w = (rplus o)<W>(w, -h * Unit(n, j))]; repaired code [w = w_orig] *)
+  (** undo the perturbation: current code [w = w_orig] (:65, :105, :122, :123; [w_orig] is the
+      [const PlainObject<W> w_orig = w] saved at :62, :102, :117 before the perturbation);
+      before 59fd5d3: [w = (rplus o)<W>(w, -h * Unit(n, j))] *)
   Definition restore (i : nat) (w_orig : X) (n j : nat) (h : S) (xs : list X) : list X :=
     if (fix_restore o) then upd i w_orig xs else bump i n j ((sneg o) h) xs.
 
   Definition sum_dof (xs : list X) : nat := list_sum (map (dofX o) xs).      (* :40 *)
 
-  (** ** K = 1  (:46-70) *)
+  (** ** K = 1  (:46-71) *)
   Definition k1_col (f : list X -> Y) (fval : Y) (i nxj I0 : nat)
              (st : list X * JLog) (j : nat) : list X * JLog :=
     let ej  := step (eps o) (getx i (fst st)) j in                           (* :56-61 *)
-    let xs1 := bump i nxj j ej (fst st) in                               (* :62 *)
-    let col := map (fun d => (sdiv o) d ej) ((rminus o) (f xs1) fval) in         (* :63 *)
-    let xs2 := restore i (getx i (fst st)) nxj j ej xs1 in               (* :64 *)
-    (xs2, snd st ++ [(I0 + j, col)]).                                    (* :63 J.col(I0 + j) = *)
+    let w_orig := getx i (fst st) in                                     (* :62 *)
+    let xs1 := bump i nxj j ej (fst st) in                               (* :63 *)
+    let col := map (fun d => (sdiv o) d ej) ((rminus o) (f xs1) fval) in         (* :64 *)
+    let xs2 := restore i w_orig nxj j ej xs1 in                          (* :65 *)
+    (xs2, snd st ++ [(I0 + j, col)]).                                    (* :64 J.col(I0 + j) = *)
 
   Definition k1_arg (f : list X -> Y) (fval : Y)
              (acc : list X * nat * JLog) (i : nat) : list X * nat * JLog :=
@@ -99,53 +108,56 @@ Section DiffModel.
     let I0 := snd (fst acc) in
     let nxj := (dofX o) (getx i xs) in                                       (* :53 *)
     let r := fold_left (k1_col f fval i nxj I0) (seq 0 nxj) (xs, snd acc) in   (* :55 *)
-    (fst r, I0 + nxj, snd r).                                            (* :66 *)
+    (fst r, I0 + nxj, snd r).                                            (* :67 *)
 
-  (** ** K = 2  (:72-131) *)
+  (** ** K = 2  (:73-135) *)
   Definition k2_k1 (f : list X -> Y) (i0 i1 n0 n1 I0 I1 nx ny k0 : nat) (eps0 : S) (w0_orig : X) (d1 : list S)
              (st : list X * HLog) (k1 : nat) : list X * HLog :=
     let xs   := fst st in
-    let eps1 := step (sqrteps o) (getx i1 xs) k1 in                          (* :107-111 *)
-    let xs1  := bump i1 n1 k1 eps1 xs in                                 (* :114 *)
-    let F01  := f xs1 in                                                 (* :115 *)
-    let xs2  := bump i0 n0 k0 eps0 xs1 in                                (* :116 *)
-    let F11  := f xs2 in                                                 (* :117 *)
-    let xs3  := restore i0 w0_orig n0 k0 eps0 xs2 in                     (* :118 *)
-    let xs4  := restore i1 (getx i1 xs) n1 k1 eps1 xs3 in                (* :119 *)
+    let eps1 := step (sqrteps o) (getx i1 xs) k1 in                          (* :110-114 *)
+    let w1_orig := getx i1 xs in                                         (* :117 *)
+    let xs1  := bump i1 n1 k1 eps1 xs in                                 (* :118 *)
+    let F01  := f xs1 in                                                 (* :119 *)
+    let xs2  := bump i0 n0 k0 eps0 xs1 in                                (* :120 *)
+    let F11  := f xs2 in                                                 (* :121 *)
+    let xs3  := restore i0 w0_orig n0 k0 eps0 xs2 in                     (* :122 *)
+    let xs4  := restore i1 w1_orig n1 k1 eps1 xs3 in                     (* :123 *)
     let d2   := map (fun p => (sdiv o) ((sdiv o) ((ssub o) (fst p) (snd p)) eps0) eps1)
-                    (combine ((rminus o) F11 F01) d1) in                     (* :121 *)
-    (xs4, snd st ++ map (fun j => (I0 + k0, j * nx + I1 + k1, nth j d2 (szero o))) (seq 0 ny)).  (* :122 *)
+                    (combine ((rminus o) F11 F01) d1) in                     (* :125 *)
+    (xs4, snd st ++ map (fun j => (I0 + k0, j * nx + I1 + k1, nth j d2 (szero o))) (seq 0 ny)).  (* :126 *)
 
   Definition k2_k0 (f : list X -> Y) (fval : Y) (i0 i1 n0 n1 I0 I1 nx ny : nat)
              (st : list X * JLog * HLog) (k0 : nat) : list X * JLog * HLog :=
     let xs   := fst (fst st) in
-    let eps0 := step (sqrteps o) (getx i0 xs) k0 in                          (* :92-96 *)
-    let xs1  := bump i0 n0 k0 eps0 xs in                                 (* :98 *)
-    let F10  := f xs1 in                                                 (* :99 *)
-    let xs2  := restore i0 (getx i0 xs) n0 k0 eps0 xs1 in                (* :100 *)
-    let d1   := (rminus o) F10 fval in                                       (* :102 *)
-    let jlog := if (fix_k2jac o) then snd (fst st)
-                else snd (fst st) ++ [(I0 + k0, map (fun d => (sdiv o) d eps0) d1)] in   (* :104 *)
-    let r := fold_left (k2_k1 f i0 i1 n0 n1 I0 I1 nx ny k0 eps0 (getx i0 xs) d1) (seq 0 n1) (xs2, snd st) in (* :106 *)
+    let eps0 := step (sqrteps o) (getx i0 xs) k0 in                          (* :96-100 *)
+    let w0_orig := getx i0 xs in                                         (* :102 *)
+    let xs1  := bump i0 n0 k0 eps0 xs in                                 (* :103 *)
+    let F10  := f xs1 in                                                 (* :104 *)
+    let xs2  := restore i0 w0_orig n0 k0 eps0 xs1 in                     (* :105 *)
+    let d1   := (rminus o) F10 fval in                                       (* :107 *)
+    let jlog := if (fix_k2jac o) then snd (fst st)                           (* current code: no write to J here *)
+                else snd (fst st) ++ [(I0 + k0, map (fun d => (sdiv o) d eps0) d1)] in
+                                     (* before 41b038a: [J.col(I0 + k0) = d1 / eps0] after the line that is now :107 *)
+    let r := fold_left (k2_k1 f i0 i1 n0 n1 I0 I1 nx ny k0 eps0 w0_orig d1) (seq 0 n1) (xs2, snd st) in (* :109 *)
     (fst r, jlog, snd r).
 
   Definition k2_i1 (f : list X -> Y) (fval : Y) (i0 n0 I0 nx ny : nat)
              (acc : list X * nat * JLog * HLog) (i1 : nat) : list X * nat * JLog * HLog :=
     let xs := fst (fst (fst acc)) in
     let I1 := snd (fst (fst acc)) in
-    let n1 := (dofX o) (getx i1 xs) in                                       (* :89 *)
+    let n1 := (dofX o) (getx i1 xs) in                                       (* :93 *)
     let r := fold_left (k2_k0 f fval i0 i1 n0 n1 I0 I1 nx ny) (seq 0 n0)
-                       (xs, snd (fst acc), snd acc) in                   (* :91 *)
-    (fst (fst r), I1 + n1, snd (fst r), snd r).                          (* :125 *)
+                       (xs, snd (fst acc), snd acc) in                   (* :95 *)
+    (fst (fst r), I1 + n1, snd (fst r), snd r).                          (* :129 *)
 
   Definition k2_i0 (f : list X -> Y) (fval : Y) (nargs nx ny : nat)
              (acc : list X * nat * JLog * HLog) (i0 : nat) : list X * nat * JLog * HLog :=
     let xs := fst (fst (fst acc)) in
     let I0 := snd (fst (fst acc)) in
-    let n0 := (dofX o) (getx i0 xs) in                                       (* :82 *)
+    let n0 := (dofX o) (getx i0 xs) in                                       (* :86 *)
     let r := fold_left (k2_i1 f fval i0 n0 I0 nx ny) (seq 0 nargs)
-                       (xs, 0, snd (fst acc), snd acc) in                (* :84-85 *)
-    (fst (fst (fst r)), I0 + n0, snd (fst r), snd r).                    (* :127 *)
+                       (xs, 0, snd (fst acc), snd acc) in                (* :88-89 *)
+    (fst (fst (fst r)), I0 + n0, snd (fst r), snd r).                    (* :131 *)
 
   (** ** results *)
   Inductive JRes := JNum (J : JGrid) | JUser (j : JT).
@@ -162,20 +174,25 @@ Section DiffModel.
     let J0   := repeat None nx in                                        (* :44 *)
     match K with
     | 1 =>
-        let r := fold_left (k1_arg f fval) (seq 0 (length xnc)) (xnc, 0, []) in   (* :47-67 *)
-        mkOut fval (Some (JNum (apply_J (snd r) J0))) None (fst (fst r))          (* :69 *)
+        let r := fold_left (k1_arg f fval) (seq 0 (length xnc)) (xnc, 0, []) in   (* :47-68 *)
+        mkOut fval (Some (JNum (apply_J (snd r) J0))) None (fst (fst r))          (* :70 *)
     | _ =>
-        let H0 := repeat (repeat None (nx * ny)) nx in                   (* :75 *)
-        (* repaired code only: J = dr_numerical<1>(f, x_nc).second before the loops *)
+        let H0 := repeat (repeat None (nx * ny)) nx in                   (* :76 *)
+        (* :79  J = dr_numerical<1>(f, x_nc).second;  the nested call receives the lvalue tuple x_nc: its reference
+           members are perturbed and restored in place, its value members (copies of const arguments) are copied
+           once more - either way the nested K = 1 loops run on the current argument values, write every column
+           of a J of the same shape (which is then assigned to this J) and hand x_nc back as they restore it.
+           [f] is a function in the model, so the nested routine's own [fval = f x_nc] is this [fval].
+           (before 41b038a this line did not exist: no K = 1 pass) *)
         let r1 := if (fix_k2jac o) then fold_left (k1_arg f fval) (seq 0 (length xnc)) (xnc, 0, [])
                   else (xnc, 0, []) in
         let r := fold_left (k2_i0 f fval (length xnc) nx ny) (seq 0 (length xnc))
-                           (fst (fst r1), 0, snd r1, []) in              (* :77-128 *)
+                           (fst (fst r1), 0, snd r1, []) in              (* :81-132 *)
         mkOut fval (Some (JNum (apply_J (snd (fst r)) J0))) (Some (HNum (apply_H (snd r) H0)))
-              (fst (fst (fst r)))                                        (* :130 *)
+              (fst (fst (fst r)))                                        (* :134 *)
     end.
 
-  (** ** dispatch (:149-222).  Autodiff / Ceres are compiled out in this build (no SMOOTH_DIFF_* macro):
+  (** ** dispatch (:153-226).  Autodiff / Ceres are compiled out in this build (no SMOOTH_DIFF_* macro):
       selecting them is a static_assert failure, modelled as [None] like every ill-formed call. *)
   Inductive Mode := Numerical | Analytic | Default.
   Record Callable := mkCallable {
@@ -185,37 +202,37 @@ Section DiffModel.
 
   Definition dr_analytic (K : nat) (c : Callable) (x : list X) : option Out :=
     match K, c_jac c, c_hess c with
-    | 1, Some jac, _ => Some (mkOut (c_f c x) (Some (JUser (jac x))) None x)                (* :187-191 *)
+    | 1, Some jac, _ => Some (mkOut (c_f c x) (Some (JUser (jac x))) None x)                (* :191-195 *)
     | 2, Some jac, Some hess =>
-        Some (mkOut (c_f c x) (Some (JUser (jac x))) (Some (HUser (hess x))) x)             (* :192-198 *)
+        Some (mkOut (c_f c x) (Some (JUser (jac x))) (Some (HUser (hess x))) x)             (* :196-203 *)
     | _, _, _ => None
     end.
 
   Definition dr (K : nat) (m : Mode) (c : Callable) (x : list X) : option Out :=
     match K with
-    | 0 => Some (mkOut (c_f c x) None None x)                                               (* :155-158 *)
+    | 0 => Some (mkOut (c_f c x) None None x)                                               (* :159-162 *)
     | 1 | 2 =>
         match m with
-        | Numerical => Some (dr_numerical K (c_f c) x)                                      (* :160-163 *)
-        | Analytic => dr_analytic K c x                                                     (* :184-199 *)
-        | Default =>                                                                        (* :201-220 *)
+        | Numerical => Some (dr_numerical K (c_f c) x)                                      (* :164-167 *)
+        | Analytic => dr_analytic K c x                                                     (* :188-203 *)
+        | Default =>                                                                        (* :205-225 *)
             match K, c_jac c, c_hess c with
-            | 1, Some _, _ => dr_analytic K c x                                             (* :205-206 *)
-            | 2, Some _, Some _ => dr_analytic K c x                                        (* :207-208 *)
-            | _, _, _ => Some (dr_numerical K (c_f c) x)                                    (* :209-219 *)
+            | 1, Some _, _ => dr_analytic K c x                                             (* :209-210 *)
+            | 2, Some _, Some _ => dr_analytic K c x                                        (* :211-212 *)
+            | _, _, _ => Some (dr_numerical K (c_f c) x)                                    (* :213-224 *)
             end
         end
     | _ => None
     end.
 
-  (** ** index-subset overload (:224-241) *)
+  (** ** index-subset overload (:228-245) *)
   Definition scatter (idx : list nat) (red full : list X) : list X :=
-    fold_left (fun acc p => upd (fst p) (snd p) acc) (combine idx red) full.                (* :234 *)
+    fold_left (fun acc p => upd (fst p) (snd p) acc) (combine idx red) full.                (* :238 *)
 
   Definition dr_idx (K : nat) (m : Mode) (c : Callable) (x : list X) (idx : list nat) : option Out :=
-    let fw := mkCallable (fun red => c_f c (scatter idx red x)) None None in                (* :228-237 *)
-    let xred := map (fun i => getx i x) idx in                                              (* :239 *)
-    match dr K m fw xred with                                                               (* :240 *)
+    let fw := mkCallable (fun red => c_f c (scatter idx red x)) None None in                (* :232-241 *)
+    let xred := map (fun i => getx i x) idx in                                              (* :243 *)
+    match dr K m fw xred with                                                               (* :244 *)
     | Some o => Some (mkOut (o_val o) (o_J o) (o_H o) (scatter idx (o_args o) x))
     | None => None
     end.
@@ -274,9 +291,11 @@ Definition poly_eval (p : Poly) (xs : list QArg) : list Q :=
 Definition q_eps : Q := 1 # (2 ^ 26).       (* sqrt(2^-52), exact in binary64 *)
 Definition q_sqrteps : Q := 1 # (2 ^ 13).   (* sqrt(2^-26), exact in binary64 *)
 
-(** the code as it is now: both repair flags off (flip after applying notes/C08-*.patch) *)
-Definition c08_fix_restore : bool := false.
-Definition c08_fix_k2jac : bool := false.
+(** the code as it is now: both repairs are in /repo (59fd5d3 restore from a saved copy, 41b038a K = 2 Jacobian from
+    the K = 1 routine).  scripts/props_C08.py reads these two lines; the correspondence run compares [q_ops]
+    (these flags) with the real diff::dr every time, so a tree without one of the repairs is reported. *)
+Definition c08_fix_restore : bool := true.
+Definition c08_fix_k2jac : bool := true.
 
 Definition q_ops : Ops Q QArg (list Q) :=
   mkOps 0 q_mul q_div q_sub Qopp Qabs q_is0
